@@ -47,7 +47,11 @@ var c13Lists = map[string]bool{"call": true, "params": true, "list": true, "valu
 	"print": true, "println": true, "custom": true}
 
 func nullLike(r *rand.Rand) *Node {
-	switch r.Intn(8) {
+	switch r.Intn(10) {
+	case 8:
+		return &Node{K: "nil", T: "stmt"} // a nil *Statement
+	case 9:
+		return &Node{K: "nil", T: "grp"} // a nil *Group
 	case 0:
 		return &Node{K: "nil"}
 	case 1:
